@@ -27,4 +27,13 @@ for f in sorted(os.listdir(pkg)):
         tree = ast.parse(open(os.path.join(pkg, f)).read())
         arity[f[:-3]] = {q: len([a for a in n.args.args if a.arg not in ("self", "cls")]) for q, n, owner, kind in def_paths(tree) if kind == "func"}
 json.dump(arity, open(os.path.join(VERIF, "afkverif", "reference_arity.json"), "w"), indent=0, sort_keys=True)
+# module-level names bound in the reference tree: a module-level constant that is NOT among them was introduced by the change
+# under analysis (a named sentinel, a named limit) and is replaced by its value before analysis
+consts = {}
+for f in sorted(os.listdir(pkg)):
+    if f.endswith(".py"):
+        tree = ast.parse(open(os.path.join(pkg, f)).read())
+        consts[f[:-3]] = sorted({t.id for st in tree.body if isinstance(st, (ast.Assign, ast.AnnAssign)) for t in (st.targets if isinstance(st, ast.Assign) else [st.target])
+                                 if isinstance(t, ast.Name)})
+json.dump(consts, open(os.path.join(VERIF, "afkverif", "reference_constants.json"), "w"), indent=0, sort_keys=True)
 print("reference: %d units, %d functions" % (len(out), sum(len(v) for v in out.values())))
